@@ -1,5 +1,5 @@
 (* C10 - Each request reaches exactly the authenticator method for its command. *)
-From Ctap Require Import Base Schema Wire Typed Procs Inst Tables ProcTables Finite FramingP FnShapes Shapes ObShapeDispatch Deps ObDeps ObShapeRequest ObShapeU2fParse ObShapeTablesOp.
+From Ctap Require Import Base Schema Wire Typed Procs Inst Tables ProcTables Finite FramingP FnShapes Shapes ObShapeDispatch Deps ObDeps ObShapeRequest ObShapeU2fParse ObShapeTablesOp PlainDecls ObPlainU2fRequests ObPlainU2fResponses ObPlainMisc.
 Local Open Scope string_scope.
 Local Open Scope Z_scope.
 
@@ -103,6 +103,14 @@ Proof. exact generated_shapes_u2f_parse. Qed.
 Theorem c10_modelled_functions_unchanged_tables_op : shapes_hold fn_shapes shapes_tables_op = true.
 Proof. exact generated_shapes_tables_op. Qed.
 
+(* the plain structures (no serde meaning of their own) whose member types the model relies on *)
+Theorem c10_plain_structures_unchanged_u2f_requests : plain_hold raw_decls plain_u2f_requests = true.
+Proof. exact generated_plain_u2f_requests. Qed.
+Theorem c10_plain_structures_unchanged_u2f_responses : plain_hold raw_decls plain_u2f_responses = true.
+Proof. exact generated_plain_u2f_responses. Qed.
+Theorem c10_plain_structures_unchanged_misc : plain_hold raw_decls plain_misc = true.
+Proof. exact generated_plain_misc. Qed.
+
 Eval vm_compute in "ASSUMPTIONS c10_ctap2". Print Assumptions c10_ctap2.
 Eval vm_compute in "ASSUMPTIONS c10_ctap1". Print Assumptions c10_ctap1.
 Eval vm_compute in "ASSUMPTIONS c10_exactly_one_call". Print Assumptions c10_exactly_one_call.
@@ -113,3 +121,6 @@ Eval vm_compute in "ASSUMPTIONS c10_modelled_dependencies_pinned". Print Assumpt
 Eval vm_compute in "ASSUMPTIONS c10_modelled_functions_unchanged_request". Print Assumptions c10_modelled_functions_unchanged_request.
 Eval vm_compute in "ASSUMPTIONS c10_modelled_functions_unchanged_u2f_parse". Print Assumptions c10_modelled_functions_unchanged_u2f_parse.
 Eval vm_compute in "ASSUMPTIONS c10_modelled_functions_unchanged_tables_op". Print Assumptions c10_modelled_functions_unchanged_tables_op.
+Eval vm_compute in "ASSUMPTIONS c10_plain_structures_unchanged_u2f_requests". Print Assumptions c10_plain_structures_unchanged_u2f_requests.
+Eval vm_compute in "ASSUMPTIONS c10_plain_structures_unchanged_u2f_responses". Print Assumptions c10_plain_structures_unchanged_u2f_responses.
+Eval vm_compute in "ASSUMPTIONS c10_plain_structures_unchanged_misc". Print Assumptions c10_plain_structures_unchanged_misc.
